@@ -83,14 +83,18 @@ def sgShowIndex (idx : BIndex) : String :=
   if idx.isEmpty then "-" else
   ";".intercalate (idx.map fun n => s!"{hexOfNatKey n.sep}|{n.bbn}|{buShowNode n.node}")
 
-def sgShowLeaves (lpn : Nat → Nat) (fresh : Nat → Nat) (postIo : List (Nat × Leaf Cell)) (lvl : List (OutLeaf Cell)) : String :=
-  if lvl.isEmpty then "-" else
-  ";".intercalate (lvl.map fun o =>
-    match o with
-    | .old l => s!"{lpn l.sep}|{sgShowEntries l.ents}"
-    | .new l =>
-      let pn := match postIo.find? (fun (_, l') => l'.sep == l.sep) with | some (pn, _) => pn | none => fresh 0
-      s!"{pn}|{sgShowEntries l.ents}")
+/-- the leaves the NEW index points to, left to right, each looked up by its page number among the old leaves and the
+leaves the update wrote (a page number found in neither: `?`) -/
+def sgShowLeaves (old : List (Nat × DbLeaf Cell)) (postIo : List (Nat × Leaf Cell)) (idx : BIndex) : String :=
+  let pns := idx.flatMap fun n => n.node.items.map (·.pn)
+  if pns.isEmpty then "-" else
+  ";".intercalate (pns.map fun pn =>
+    match postIo.find? (fun (p, _) => p == pn) with
+    | some (_, l) => s!"{pn}|{sgShowEntries l.ents}"
+    | none =>
+      match old.find? (fun (p, _) => p == pn) with
+      | some (_, l) => s!"{pn}|{sgShowEntries l.ents}"
+      | none => s!"{pn}|?")
 
 def sgVariant (v : String) : Option Bool :=
   if v == "real" then some false else if v == "seeded" then some true else none
@@ -137,7 +141,7 @@ def stageglueStep (s : SgState) (line : String) : SgState × String :=
         | some o =>
           (s, s!"lcs={sgShowCs o.leafChangeset} lnfreed={buShowNats o.lnFreed} bbnfreed={buShowNats o.bbnFreed} " ++
               s!"io={o.submittedIo} idx={sgShowIndex o.index} " ++
-              s!"leaves={sgShowLeaves lpn lnFresh o.postIo o.leafLevel} cache={buShowNats (o.postIo.map (·.1))}")
+              s!"leaves={sgShowLeaves s.leaves o.postIo o.index} cache={buShowNats (o.postIo.map (·.1))}")
     | _, _, _, _ => (s, "bad-op")
   | _ => (s, "bad-op")
 
